@@ -30,7 +30,8 @@ pub fn run(o: &Opts) {
   let langs = [SupportLang::TypeScript, SupportLang::JavaScript, SupportLang::Python, SupportLang::Rust, SupportLang::Go, SupportLang::Java, SupportLang::Ruby, SupportLang::Css];
   let nl = if o.thorough { langs.len() } else { 3 };
   for k in 0..nl {
-    let lang = langs[(o.seed as usize + k * 3) % langs.len()];
+    // the first language is always TypeScript (it carries the constructed layouts below), the others rotate with the seed
+    let lang = if k == 0 { SupportLang::TypeScript } else { langs[(o.seed as usize + k * 3) % langs.len()] };
     let ext = corpus::lang_ext(lang);
     for round in 0..rounds {
       let dir = fresh_dir(&o.out, &format!("f_{lang}_{round}"));
@@ -43,6 +44,10 @@ pub fn run(o: &Opts) {
       // in the last round of a JavaScript / TypeScript language: fix rules whose matches NEST (see below)
       let nested = round + 1 == rounds && matches!(lang, SupportLang::TypeScript | SupportLang::JavaScript);
       let src = if nested { "console.log(console.log(1))\nlet ok = a && b && c\nfoo(foo(foo(2)), console.log(3))\n".to_string() } else { src };
+      // in the round before: findings whose OWN text holds multi-byte characters on one line (end column = start column +
+      // characters, not bytes), the first of them on the first line of a file that starts with a byte order mark
+      let wide = round + 2 == rounds && matches!(lang, SupportLang::TypeScript | SupportLang::JavaScript);
+      let src = if wide { "\u{feff}console.log('é日😀', 'ü')\nlet s = 'ünï'; console.log(s, 'añb')\n".to_string() } else { src };
       let g = corpus::parse(lang, &src);
       let nodes = corpus::all_nodes(g.root());
       let ing = harvest(lang, &nodes, &mut rng);
@@ -87,6 +92,11 @@ pub fn run(o: &Opts) {
         vec![format!("id: r0\nlanguage: {lang}\nseverity: warning\nmessage: log $A\nrule:\n  pattern: console.log($A)\nfix: logger.debug($A)\n"),
               format!("id: r1\nlanguage: {lang}\nseverity: error\nmessage: and\nrule:\n  pattern: $A && $B\nfix: $B && $A\n"),
               format!("id: r2\nlanguage: {lang}\nseverity: info\nmessage: foo\nrule:\n  pattern: foo($$$A)\nfix: bar($$$A)\n")]
+      } else if wide {
+        out.count("layout:multi-byte-findings-after-BOM");
+        vec![format!("id: r0\nlanguage: {lang}\nseverity: warning\nmessage: log $A\nrule:\n  pattern: console.log($A, $B)\n"),
+              format!("id: r1\nlanguage: {lang}\nseverity: error\nmessage: wide literal\nrule:\n  pattern: \"'é日😀'\"\n"),
+              format!("id: r2\nlanguage: {lang}\nseverity: info\nmessage: str $S\nrule:\n  kind: string\n  pattern: $S\n")]
       } else { yamls };
       let Some(rules) = load_rules(&yamls) else {
         out.count("rules:rejected");
@@ -251,7 +261,7 @@ pub fn run(o: &Opts) {
 /// open/change/close histories: the diagnostics last published for an open document are those of the
 /// highest-version text received since it was (last) opened, the latest among equal versions
 fn lsp_histories(o: &Opts, out: &mut Out, rng: &mut Rng) {
-  let n_hist = if o.thorough { 40 } else { 10 };
+  let n_hist = if o.thorough { 44 } else { 14 };
   let yaml = "id: log\nlanguage: TypeScript\nseverity: warning\nmessage: found $A\nrule:\n  pattern: console.log($A)\n".to_string();
   // text i has i findings
   let texts: Vec<String> = (0..5).map(|i| (0..i).map(|j| format!("console.log({j});\n")).collect::<String>() + "let x = 1;\n").collect();
@@ -263,12 +273,21 @@ fn lsp_histories(o: &Opts, out: &mut Out, rng: &mut Rng) {
     let mut hist_val = vec![];
     // the model of the specification, written here independently: per uri, Some((version, text index)) when open
     let mut spec: Vec<Option<(i64, usize)>> = vec![None, None];
-    let len = 3 + rng.below(8);
-    for _ in 0..len {
-      let u = rng.below(2);
-      let t = rng.below(texts.len());
-      let v = 1 + rng.below(6) as i64;
-      match rng.below(8) {
+    // the first histories are scripted: a change that carries the text the server already holds (type-then-undo,
+    // format on save) still raises the version, so a stale change arriving after it must be ignored
+    let scripts: [&[(usize, usize, i64, usize)]; 4] = [
+      &[(0, 0, 1, 2), (3, 0, 3, 2), (3, 0, 2, 3)],
+      &[(0, 0, 5, 3), (3, 0, 5, 3), (3, 0, 4, 0)],
+      &[(0, 1, 1, 0), (3, 1, 4, 0), (3, 1, 2, 1), (3, 1, 3, 4)],
+      &[(0, 0, 2, 1), (3, 0, 3, 1), (3, 0, 6, 1), (3, 0, 4, 2), (3, 0, 5, 0)],
+    ];
+    let len = if h < scripts.len() { scripts[h].len() } else { 3 + rng.below(8) };
+    for step in 0..len {
+      let (op, u, v, t) = if h < scripts.len() { scripts[h][step] } else { (rng.below(8), rng.below(2), 1 + rng.below(6) as i64, rng.below(texts.len())) };
+      if h < scripts.len() {
+        out.count("lsp:scripted-steps");
+      }
+      match op {
         0 | 1 => {
           msgs.push(did_open(&uris[u], "typescript", v, &texts[t]));
           hist_val.push(vl![Val::Z(0), Val::n(u), Val::Z(v as i128), Val::n(t)]);
